@@ -69,6 +69,16 @@ def units(rng, tier):
                 continue
             v = vals[:8] if a in ("cg", "ckk", "snp", "rnp") else vals
             us += part_group(a, min(k, 5) if a in ("ckk", "snp", "rnp") else k, v, fam)
+    # dynamic programming (its choice among tied optima depends on the exact item list, through the iteration order of a set of states) and
+    # the sorting heuristics on small lists WITH ZERO-VALUED ITEMS and often more bins than positive items: an adaptor that prepares the item
+    # list differently for the sums-only output types makes the two kinds of output describe different partitions
+    for _ in range(120 if tier == "quick" else 2000):
+        npos = rng.randint(1, 4)
+        v = [rng.randint(1, 14) for _ in range(npos)] + [0] * rng.randint(1, 2)
+        rng.shuffle(v)
+        k = rng.choice([2, 2, 3, 4, 4])
+        for a in (["dp"] if rng.random() < 0.7 else [rng.choice(["greedy", "kk", "cg", "ckk", "multifit", "roundrobin", "bidir"])]):
+            us += part_group(a, k, v, "zeros+few-positive")
     for _ in range(30 if tier == "quick" else 500):
         for a in PACK:
             C, vals, fam = (gen.covering_instance if a.startswith("cover") else gen.packing_instance)(rng, nmax=9)
